@@ -3114,6 +3114,11 @@ impl Interpreter {
                 arguments: args.clone(),
                 new_target: JsValue::Undefined,
                 trampoline_stack: Vec::new(), // Generators run at top level
+                saved_this: None,             // supplied explicitly below
+                saved_env_stack: Vec::new(),
+                exception_value: None,
+                pending_completion: None,
+                current_constructor: None,
             };
 
             // Create guard for the VM registers
